@@ -168,4 +168,18 @@ def historicalVerify (self other : Hist) (now : Nat) : Bool :=
     let liveDiff := new.liveTime - old.liveTime
     if liveOutOfSync liveDiff timeDiff then false else true
 
+/-- `historical_verify` with its two clock readings kept apart: `old_quote.timestamp.elapsed()` is taken at `now1`,
+`new_quote.timestamp.elapsed()` at `now2` (a moment later). `historicalVerify` is the case `now1 = now2`. -/
+def historicalVerify2 (self other : Hist) (now1 now2 : Nat) : Bool :=
+  let old := if isNewerThan self.ts other.ts then other else self
+  let new := if isNewerThan self.ts other.ts then self else other
+  if liveOutOfSeq new.liveTime old.liveTime then false
+  else if paidOutOfSeq new.paid old.paid then false
+  else if old.ts > now1 then true
+  else if new.ts > now2 then true
+  else
+    let timeDiff := (now1 - old.ts) / nsPerSec - (now2 - new.ts) / nsPerSec
+    let liveDiff := new.liveTime - old.liveTime
+    if liveOutOfSync liveDiff timeDiff then false else true
+
 end SafeNet.Quote
